@@ -14,6 +14,18 @@
 //!   rootat <n>                   -> root <term> Snapshot::chain_root_mmr(n).get_root()
 //!   ext <n>                      -> ext <term>  main-chain block n commits the root over blocks 0..n-1
 //!   proof <n> <idx,..>           -> proof <size> <term;..>   chain_root_mmr(n).gen_proof(..)
+//!   bp <lastId> <id,id,..>       -> the reply of the real LightClientProtocol to a GetBlocksProof message
+//!                                   (last_hash = block lastId, block_hashes = the ids; 7777xxxxx = unknown hash):
+//!                                   proof <term;..> root <term> headers=<ids> missing=<k> | tip <id> root <term|-> | banned | err | panic
+//!   extv <parentN> <len|none> <at:K|flip> <x|->
+//!                                -> the real BlockExtensionVerifier (through ContextualBlockVerifier with every other
+//!                                   check switched off) on a candidate child of main-chain block parentN whose extension
+//!                                   has <len> bytes starting with the hash of the chain root over blocks 0..K (or that of
+//!                                   0..parentN with one bit flipped); x = header extra_hash corrupted:
+//!                                   ok | NoBlockExtension | EmptyBlockExtension | ExceededMaximumBlockExtensionBytes | InvalidBlockExtension | InvalidChainRoot | InvalidExtraHash
+//!   lsp <lastId> <startId> <startNum> <lastN> <boundary> <d,d,..> <kind> <numbers>
+//!                                -> GetLastStateProof through the real handler; <kind> and <numbers> are what the
+//!                                   real reply was (the sampling logic is not modelled): proof <term;..> root <term> roots=<term;..> | <kind>
 //! A block id encodes its number: id % 10000.
 use crate::common::*;
 use crate::node::*;
@@ -27,6 +39,266 @@ use ckb_types::prelude::*;
 use ckb_types::utilities::merkle_mountain_range::MergeHeaderDigest;
 use core19::{join, parse_list, record, term_of, RecMerge};
 use std::collections::HashMap;
+
+
+/// Recording mock of `CKBProtocolContext` (copied from util/light-client-protocol-server/src/tests/utils/network_context.rs,
+/// which is `cfg(test)`-only in /repo).
+#[allow(dead_code, clippy::all)]
+mod lcctx {
+    use std::cell::RefCell;
+    use std::collections::HashSet;
+    use std::future::Future;
+    use std::pin::Pin;
+    use std::sync::Arc;
+    use std::time::Duration;
+
+    use ckb_network::{
+        Behaviour, CKBProtocolContext, Error, Peer, PeerIndex, ProtocolId, SupportProtocols,
+        TargetSession, async_trait, bytes::Bytes as P2pBytes,
+    };
+
+    struct MockProtocolContext {
+        protocol: SupportProtocols,
+        sent_messages: RefCell<Vec<(ProtocolId, PeerIndex, P2pBytes)>>,
+        banned_peers: RefCell<Vec<(PeerIndex, Duration, String)>>,
+        connected_peers: RefCell<HashSet<PeerIndex>>,
+    }
+
+    pub struct MockNetworkContext {
+        inner: Arc<MockProtocolContext>,
+    }
+
+    // test mock context with single thread
+    unsafe impl Send for MockProtocolContext {}
+    unsafe impl Sync for MockProtocolContext {}
+
+    impl MockProtocolContext {
+        fn new(protocol: SupportProtocols) -> Self {
+            Self {
+                protocol,
+                sent_messages: Default::default(),
+                banned_peers: Default::default(),
+                connected_peers: Default::default(),
+            }
+        }
+    }
+
+    impl MockNetworkContext {
+        pub fn new(protocol: SupportProtocols) -> Self {
+            let context = MockProtocolContext::new(protocol);
+            let inner = Arc::new(context);
+            Self { inner }
+        }
+
+        pub fn sent_messages(&self) -> &RefCell<Vec<(ProtocolId, PeerIndex, P2pBytes)>> {
+            &self.inner.sent_messages
+        }
+
+        pub fn banned_peers(&self) -> &RefCell<Vec<(PeerIndex, Duration, String)>> {
+            &self.inner.banned_peers
+        }
+
+        pub fn has_banned(&self, target: PeerIndex) -> Option<(Duration, String)> {
+            self.banned_peers()
+                .borrow()
+                .iter()
+                .find(|(peer, _, _)| *peer == target)
+                .map(|(_, duration, reason)| (*duration, reason.clone()))
+        }
+
+        pub fn not_banned(&self, target: PeerIndex) -> bool {
+            self.has_banned(target)
+                .map(|(_, reason)| {
+                    eprintln!("Banned due to {reason}");
+                    false
+                })
+                .unwrap_or(true)
+        }
+
+        pub fn context(&self) -> Arc<dyn CKBProtocolContext + Sync> {
+            Arc::clone(&self.inner) as Arc<dyn CKBProtocolContext + Sync>
+        }
+    }
+
+    #[async_trait]
+    impl CKBProtocolContext for MockProtocolContext {
+        async fn set_notify(&self, _interval: Duration, _token: u64) -> Result<(), Error> {
+            // NOTE: no need to mock this function, just call protocol.notify(token) in
+            // test code to test the functionality of the protocol.
+            unimplemented!()
+        }
+        async fn remove_notify(&self, _token: u64) -> Result<(), Error> {
+            unimplemented!()
+        }
+        async fn async_quick_send_message(
+            &self,
+            _proto_id: ProtocolId,
+            _peer_index: PeerIndex,
+            _data: P2pBytes,
+        ) -> Result<(), Error> {
+            unimplemented!();
+        }
+        async fn async_quick_send_message_to(
+            &self,
+            _peer_index: PeerIndex,
+            _data: P2pBytes,
+        ) -> Result<(), Error> {
+            unimplemented!();
+        }
+        async fn async_quick_filter_broadcast(
+            &self,
+            _target: TargetSession,
+            _data: P2pBytes,
+        ) -> Result<(), Error> {
+            unimplemented!();
+        }
+        async fn async_future_task(
+            &self,
+            _task: Pin<Box<dyn Future<Output = ()> + 'static + Send>>,
+            _blocking: bool,
+        ) -> Result<(), Error> {
+            Ok(())
+        }
+        async fn async_send_message(
+            &self,
+            proto_id: ProtocolId,
+            peer_index: PeerIndex,
+            data: P2pBytes,
+        ) -> Result<(), Error> {
+            self.send_message(proto_id, peer_index, data)
+        }
+        async fn async_send_message_to(
+            &self,
+            peer_index: PeerIndex,
+            data: P2pBytes,
+        ) -> Result<(), Error> {
+            let protocol_id = self.protocol_id();
+            self.send_message(protocol_id, peer_index, data)
+        }
+        async fn async_filter_broadcast_with_proto(
+            &self,
+            proto_id: ProtocolId,
+            target: TargetSession,
+            data: P2pBytes,
+        ) -> Result<(), Error> {
+            self.quick_filter_broadcast_with_proto(proto_id, target, data)
+        }
+        async fn async_quick_filter_broadcast_with_proto(
+            &self,
+            proto_id: ProtocolId,
+            target: TargetSession,
+            data: P2pBytes,
+        ) -> Result<(), Error> {
+            self.quick_filter_broadcast_with_proto(proto_id, target, data)
+        }
+        fn quick_send_message(
+            &self,
+            proto_id: ProtocolId,
+            peer_index: PeerIndex,
+            data: P2pBytes,
+        ) -> Result<(), Error> {
+            self.send_message(proto_id, peer_index, data)
+        }
+        fn quick_send_message_to(&self, peer_index: PeerIndex, data: P2pBytes) -> Result<(), Error> {
+            let protocol_id = self.protocol_id();
+            self.send_message(protocol_id, peer_index, data)
+        }
+        fn quick_filter_broadcast_with_proto(
+            &self,
+            proto_id: ProtocolId,
+            target: TargetSession,
+            data: P2pBytes,
+        ) -> Result<(), Error> {
+            match target {
+                TargetSession::Single(peer) => self.send_message(proto_id, peer, data)?,
+                TargetSession::Filter(mut peers) => {
+                    let all = self.connected_peers();
+                    for peer in all {
+                        if peers(&peer) {
+                            self.send_message(proto_id, peer, data.clone())?;
+                        }
+                    }
+                }
+                TargetSession::Multi(iter) => {
+                    for peer in iter {
+                        self.send_message(proto_id, peer, data.clone())?;
+                    }
+                }
+                TargetSession::All => {
+                    unimplemented!();
+                }
+            }
+            Ok(())
+        }
+
+        async fn async_filter_broadcast(
+            &self,
+            _target: TargetSession,
+            _data: P2pBytes,
+        ) -> Result<(), Error> {
+            unimplemented!();
+        }
+        async fn async_disconnect(&self, _peer_index: PeerIndex, _message: &str) -> Result<(), Error> {
+            unimplemented!();
+        }
+        fn quick_filter_broadcast(&self, _target: TargetSession, _data: P2pBytes) -> Result<(), Error> {
+            unimplemented!();
+        }
+        fn future_task(
+            &self,
+            _task: Pin<Box<dyn Future<Output = ()> + 'static + Send>>,
+            _blocking: bool,
+        ) -> Result<(), Error> {
+            Ok(())
+        }
+        fn send_message(
+            &self,
+            proto_id: ProtocolId,
+            peer_index: PeerIndex,
+            data: P2pBytes,
+        ) -> Result<(), Error> {
+            self.sent_messages
+                .borrow_mut()
+                .push((proto_id, peer_index, data));
+            Ok(())
+        }
+        fn send_message_to(&self, peer_index: PeerIndex, data: P2pBytes) -> Result<(), Error> {
+            let protocol_id = self.protocol_id();
+            self.send_message(protocol_id, peer_index, data)
+        }
+
+        fn filter_broadcast(&self, _target: TargetSession, _data: P2pBytes) -> Result<(), Error> {
+            unimplemented!();
+        }
+        fn disconnect(&self, peer_index: PeerIndex, _message: &str) -> Result<(), Error> {
+            self.connected_peers.borrow_mut().remove(&peer_index);
+            Ok(())
+        }
+        fn get_peer(&self, _peer_index: PeerIndex) -> Option<Peer> {
+            unimplemented!();
+        }
+        fn with_peer_mut(&self, _peer_index: PeerIndex, _f: Box<dyn FnOnce(&mut Peer)>) {
+            unimplemented!();
+        }
+        fn connected_peers(&self) -> Vec<PeerIndex> {
+            self.connected_peers.borrow().iter().cloned().collect()
+        }
+        fn full_relay_connected_peers(&self) -> Vec<PeerIndex> {
+            vec![]
+        }
+        fn report_peer(&self, _peer_index: PeerIndex, _behaviour: Behaviour) {
+            unimplemented!();
+        }
+        fn ban_peer(&self, peer_index: PeerIndex, duration: Duration, reason: String) {
+            self.banned_peers
+                .borrow_mut()
+                .push((peer_index, duration, reason));
+        }
+        fn protocol_id(&self) -> ProtocolId {
+            self.protocol.protocol_id()
+        }
+    }
+}
 
 /// carry-style chain root with a merge function (real or recording); records every partial bag
 fn spec_root<M: Merge<Item = HeaderDigest>>(ds: &[HeaderDigest]) -> Option<HeaderDigest> {
@@ -169,6 +441,167 @@ impl NSim {
                 }
                 format!("ext {}", self.hash_terms.get(&ext[..32.min(ext.len())].to_vec()).cloned().unwrap_or("?".into()))
             }
+            "bp" => {
+                use ckb_network::{CKBProtocolHandler, PeerIndex, SupportProtocols};
+                use ckb_types::utilities::merkle_mountain_range::{MMRProof, VerifiableHeader};
+                let last: u64 = t[1].parse().unwrap();
+                let ids = parse_list(t[2]);
+                out.count("bp");
+                let hash_of = |s: &NSim, id: u64| -> Byte32 { s.blocks.get(&id).map(|b| b.hash()).unwrap_or_else(|| ckb_hash::blake2b_256(id.to_le_bytes()).into()) };
+                let last_hash = hash_of(self, last);
+                let hashes: Vec<Byte32> = ids.iter().map(|i| hash_of(self, *i)).collect();
+                let content = ckb_types::packed::GetBlocksProof::new_builder().last_hash(last_hash).block_hashes(hashes.clone()).build();
+                let msg = ckb_types::packed::LightClientMessage::new_builder().set(content).build();
+                let nc = lcctx::MockNetworkContext::new(SupportProtocols::LightClient);
+                let peer = PeerIndex::new(1);
+                let shared = self.node().shared.clone();
+                let ctx = nc.context();
+                let data = msg.as_bytes();
+                let res = std::panic::catch_unwind(std::panic::AssertUnwindSafe(|| {
+                    let mut protocol = ckb_light_client_protocol_server::LightClientProtocol::new(shared);
+                    runtime_handle().block_on(protocol.received(ctx, peer, data));
+                }));
+                let main_all: Vec<u64> = std::iter::once(0u64).chain(self.main.iter().copied()).collect();
+                let last_on_main = main_all.contains(&last);
+                if res.is_err() {
+                    out.count("bp-panic");
+                    "panic".to_string()
+                } else if nc.has_banned(peer).is_some() {
+                    "banned".to_string()
+                } else if nc.sent_messages().borrow().is_empty() {
+                    if last_on_main && last % 10000 > 0 && ids.iter().all(|i| !main_all.contains(i) || i % 10000 < last % 10000) {
+                        out.oracle_fail("blocks-proof-not-served", line);
+                    }
+                    "err".to_string()
+                } else {
+                    let (_, _, bytes) = nc.sent_messages().borrow()[0].clone();
+                    // (the V1 reply travels as the `SendBlocksProof` union item with extra table fields)
+                    let reply = ckb_types::packed::LightClientMessage::from_compatible_slice(&bytes).expect("reply").to_enum();
+                    let term_of_hash = |s: &mut NSim, n: u64| -> HeaderDigest { s.expected_root(n) };
+                    match reply {
+                        ckb_types::packed::LightClientMessageUnion::SendBlocksProof(r) if r.last_header().header().into_view().hash() != hash_of(self, last) => {
+                            // the "your last block is not on my main chain, here is my tip" answer
+                            let vh = r.last_header();
+                            let id = *self.by_hash.get(&vh.header().into_view().hash()).expect("tip known");
+                            if last_on_main || Some(&id) != main_all.last() {
+                                out.oracle_fail("tip-state-reply-wrong", line);
+                            }
+                            let n = id % 10000;
+                            let root = if n == 0 { "-".to_string() } else {
+                                let want = term_of_hash(self, n - 1);
+                                if want.as_slice() != vh.parent_chain_root().as_slice() {
+                                    out.oracle_fail("root-not-mmr-root-of-ancestors", &format!("{line}: tip parent chain root"));
+                                }
+                                term_of(&vh.parent_chain_root())
+                            };
+                            format!("tip {id} root {root}")
+                        }
+                        ckb_types::packed::LightClientMessageUnion::SendBlocksProof(r) => {
+                            let vh = r.last_header();
+                            let n = last % 10000;
+                            let want = term_of_hash(self, n - 1);
+                            if want.as_slice() != vh.parent_chain_root().as_slice() {
+                                out.oracle_fail("root-not-mmr-root-of-ancestors", &format!("{line}: parent chain root of the last block"));
+                            }
+                            if !VerifiableHeader::from(vh.clone()).is_valid(0) {
+                                out.oracle_fail("last-header-does-not-commit-root", line);
+                            }
+                            let headers: Vec<ckb_types::core::HeaderView> = r.headers().into_iter().map(|h| h.into_view()).collect();
+                            let mut hids = vec![];
+                            let mut leaves = vec![];
+                            for h in &headers {
+                                let id = *self.by_hash.get(&h.hash()).expect("served header known");
+                                if !main_all.contains(&id) {
+                                    out.oracle_fail("served-header-not-on-main-chain", line);
+                                }
+                                hids.push(id);
+                                leaves.push((leaf_index_to_pos(h.number()), h.digest()));
+                            }
+                            let items: Vec<HeaderDigest> = r.proof().into_iter().collect();
+                            // what a light client does: verify the served headers against the committed root
+                            if !leaves.is_empty() {
+                                let proof = MMRProof::new(leaf_index_to_mmr_size(n - 1), items.clone());
+                                if !matches!(proof.verify(vh.parent_chain_root(), leaves.clone()), Ok(true)) {
+                                    out.oracle_fail("served-proof-does-not-verify", line);
+                                }
+                                if n > 1 {
+                                    // ... and not against the chain one block shorter
+                                    let other = term_of_hash(self, n - 2);
+                                    if matches!(MMRProof::new(leaf_index_to_mmr_size(n - 1), items.clone()).verify(other, leaves), Ok(true)) {
+                                        out.oracle_fail("proof-accepted-for-wrong-chain", line);
+                                    }
+                                }
+                            }
+                            format!("proof {} root {} headers={} missing={}", join(&items.iter().map(term_of).collect::<Vec<_>>(), ";"), term_of(&vh.parent_chain_root()), join(&hids, ","), r.missing_block_hashes().len())
+                        }
+                        _ => "unexpected-reply".to_string(),
+                    }
+                }
+            }
+            "extv" => {
+                use ckb_verification_contextual::{ContextualBlockVerifier, VerifyContext};
+                use ckb_verification_traits::Switch;
+                let pn: u64 = t[1].parse().unwrap();
+                out.count("extv");
+                let main_all: Vec<u64> = std::iter::once(0u64).chain(self.main.iter().copied()).collect();
+                let parent = self.blocks[&main_all[pn as usize]].header();
+                let root_hash: Vec<u8> = if let Some(k) = t[3].strip_prefix("at:") {
+                    self.expected_root(k.parse().unwrap()).calc_mmr_hash().as_slice().to_vec()
+                } else {
+                    let mut h = self.expected_root(pn).calc_mmr_hash().as_slice().to_vec();
+                    h[0] ^= 1;
+                    h
+                };
+                let ext: Option<ckb_types::packed::Bytes> = if t[2] == "none" {
+                    None
+                } else {
+                    let len: usize = t[2].parse().unwrap();
+                    let mut bytes = root_hash.clone();
+                    bytes.resize(len.max(32), 0xAB);
+                    bytes.truncate(len);
+                    Some(ckb_types::bytes::Bytes::from(bytes).pack())
+                };
+                let builder = ckb_types::core::BlockBuilder::default()
+                    .parent_hash(parent.hash())
+                    .number(pn + 1)
+                    .epoch(ckb_types::core::EpochNumberWithFraction::new(parent.epoch().number(), 1, 2).full_value())
+                    .extension(ext);
+                // `build` computes the header's extra_hash from uncles + extension; `build_unchecked` keeps the (zero) one
+                let block = if t[4] == "x" { builder.build_unchecked() } else { builder.build() };
+                assert_eq!(block.data().count_extra_fields(), if t[2] == "none" { 0 } else { 1 });
+                let snap = self.node().shared.snapshot();
+                let mmr = snap.chain_root_mmr(pn);
+                let ctx = VerifyContext::new(std::sync::Arc::clone(&snap), std::sync::Arc::new(self.node().consensus.clone()));
+                let handle = runtime_handle();
+                let cache = self.node().shared.txs_verify_cache();
+                let switch = Switch::DISABLE_ALL - Switch::DISABLE_EXTENSION;
+                let verifier = ContextualBlockVerifier::new(ctx, &handle, switch, cache, &mmr);
+                let r = verifier.verify(&[], &block);
+                let ans = match &r {
+                    Ok(_) => "ok".to_string(),
+                    Err(e) => {
+                        let d = format!("{e:?}");
+                        ["NoBlockExtension", "EmptyBlockExtension", "ExceededMaximumBlockExtensionBytes", "InvalidBlockExtension", "InvalidChainRoot", "InvalidExtraHash", "UnknownFields"]
+                            .iter().find(|k| d.contains(*k)).map(|k| k.to_string()).unwrap_or_else(|| format!("other:{}", d.chars().take(60).collect::<String>().replace(' ', "_")))
+                    }
+                };
+                // the property: accepted => the extension starts with the hash of the root over ALL ancestors
+                let commits = t[3] == format!("at:{pn}") && t[2] != "none" && t[2].parse::<usize>().unwrap() >= 32;
+                if r.is_ok() && !commits {
+                    out.oracle_fail("wrong-chain-root-accepted", line);
+                }
+                if commits && t[4] != "x" && t[2].parse::<usize>().unwrap() <= 96 && r.is_err() {
+                    out.oracle_fail("valid-extension-rejected", &format!("{line}: {ans}"));
+                }
+                ans
+            }
+            "lsp" => {
+                let (kind, numbers, detail) = self.lsp_call(out, &t[1..7], line);
+                assert_eq!(kind, t[7], "replayed lsp outcome differs from the recorded one");
+                assert_eq!(join(&numbers, ","), t[8], "replayed lsp headers differ from the recorded ones");
+                out.count(&format!("lsp-{kind}"));
+                detail
+            }
             "proof" => {
                 let n: u64 = t[1].parse().unwrap();
                 let idxs = parse_list(t[2]);
@@ -204,6 +637,102 @@ impl NSim {
             _ => panic!("bad op {line}"),
         };
         out.op(line, &ans);
+    }
+
+    /// sends a GetLastStateProof to the real handler; returns (kind, served block numbers, answer line)
+    fn lsp_call(&mut self, out: &mut Out, p: &[&str], line: &str) -> (String, Vec<u64>, String) {
+        use ckb_network::{CKBProtocolHandler, PeerIndex, SupportProtocols};
+        use ckb_types::utilities::merkle_mountain_range::{MMRProof, VerifiableHeader};
+        use ckb_types::{packed, U256};
+        let last: u64 = p[0].parse().unwrap();
+        let start: u64 = p[1].parse().unwrap();
+        let start_num: u64 = p[2].parse().unwrap();
+        let last_n: u64 = p[3].parse().unwrap();
+        let boundary: u64 = p[4].parse().unwrap();
+        let diffs = parse_list(p[5]);
+        let hash_of = |s: &NSim, id: u64| -> Byte32 { s.blocks.get(&id).map(|b| b.hash()).unwrap_or_else(|| ckb_hash::blake2b_256(id.to_le_bytes()).into()) };
+        let content = packed::GetLastStateProof::new_builder()
+            .last_hash(hash_of(self, last))
+            .start_hash(hash_of(self, start))
+            .start_number(start_num)
+            .last_n_blocks(last_n)
+            .difficulty_boundary(U256::from(boundary))
+            .difficulties(diffs.iter().map(|d| U256::from(*d)).collect::<Vec<U256>>())
+            .build();
+        let msg = packed::LightClientMessage::new_builder().set(content).build();
+        let nc = lcctx::MockNetworkContext::new(SupportProtocols::LightClient);
+        let peer = PeerIndex::new(1);
+        let shared = self.node().shared.clone();
+        let ctx = nc.context();
+        let data = msg.as_bytes();
+        let res = std::panic::catch_unwind(std::panic::AssertUnwindSafe(|| {
+            let mut protocol = ckb_light_client_protocol_server::LightClientProtocol::new(shared);
+            runtime_handle().block_on(protocol.received(ctx, peer, data));
+        }));
+        if res.is_err() {
+            return ("panic".into(), vec![], "panic".into());
+        }
+        if nc.has_banned(peer).is_some() {
+            return ("banned".into(), vec![], "banned".into());
+        }
+        if nc.sent_messages().borrow().is_empty() {
+            return ("err".into(), vec![], "err".into());
+        }
+        let (_, _, bytes) = nc.sent_messages().borrow()[0].clone();
+        let reply = packed::LightClientMessage::from_compatible_slice(&bytes).expect("reply").to_enum();
+        let packed::LightClientMessageUnion::SendLastStateProof(r) = reply else { return ("unexpected".into(), vec![], "unexpected".into()) };
+        let vh = r.last_header();
+        if vh.header().into_view().hash() != hash_of(self, last) {
+            return ("tip".into(), vec![], "tip".into());
+        }
+        let n = last % 10000;
+        if n == 0 {
+            // genesis as the last block: nothing to prove
+            return ("genesis".into(), vec![], "genesis".into());
+        }
+        let want = self.expected_root(n - 1);
+        if want.as_slice() != vh.parent_chain_root().as_slice() {
+            out.oracle_fail("root-not-mmr-root-of-ancestors", &format!("{line}: parent chain root of the last block"));
+        }
+        if !VerifiableHeader::from(vh.clone()).is_valid(0) {
+            out.oracle_fail("last-header-does-not-commit-root", line);
+        }
+        let main_all: Vec<u64> = std::iter::once(0u64).chain(self.main.iter().copied()).collect();
+        let mut numbers = vec![];
+        let mut leaves = vec![];
+        let mut roots = vec![];
+        for h in r.headers().into_iter() {
+            let hv = h.header().into_view();
+            let id = *self.by_hash.get(&hv.hash()).expect("served header known");
+            if main_all.get(hv.number() as usize) != Some(&id) {
+                out.oracle_fail("served-header-not-on-main-chain", line);
+            }
+            if !VerifiableHeader::from(h.clone()).is_valid(0) {
+                out.oracle_fail("served-header-does-not-commit-root", line);
+            }
+            if hv.number() > 0 {
+                let w = self.expected_root(hv.number() - 1);
+                if w.as_slice() != h.parent_chain_root().as_slice() {
+                    out.oracle_fail("root-not-mmr-root-of-ancestors", &format!("{line}: parent chain root of served header {}", hv.number()));
+                }
+                roots.push(term_of(&h.parent_chain_root()));
+            } else {
+                roots.push("-".to_string());
+            }
+            numbers.push(hv.number());
+            leaves.push((leaf_index_to_pos(hv.number()), hv.digest()));
+        }
+        let items: Vec<HeaderDigest> = r.proof().into_iter().collect();
+        if !leaves.is_empty() {
+            let mut l2 = leaves.clone();
+            l2.sort_by_key(|x| x.0);
+            l2.dedup_by_key(|x| x.0);
+            if !matches!(MMRProof::new(leaf_index_to_mmr_size(n - 1), items.clone()).verify(vh.parent_chain_root(), l2), Ok(true)) {
+                out.oracle_fail("served-proof-does-not-verify", line);
+            }
+        }
+        let detail = format!("proof {} root {} roots={}", join(&items.iter().map(term_of).collect::<Vec<_>>(), ";"), term_of(&vh.parent_chain_root()), join(&roots, ";"));
+        ("proof".into(), numbers, detail)
     }
 
     fn root_line(&mut self, out: &mut Out, line: &str, n: u64) -> String {
@@ -281,6 +810,83 @@ fn gen_case(out: &mut Out, rng: &mut Rng, base: &std::path::Path, n_blocks: usiz
             }
             if rng.chance(1, 4) && tip > 1 {
                 sim.exec(out, &format!("ext {}", rng.range(1, tip)));
+            }
+            for _ in 0..rng.below(3) {
+                // candidate children of a main-chain block with all kinds of extensions
+                let pn = if rng.chance(1, 2) { tip } else { rng.below(tip + 1) };
+                let len = match rng.below(10) { 0 => "none".to_string(), 1 => "0".into(), 2 => "31".into(), 3 => "96".into(), 4 => "97".into(), 5 => rng.range(1, 120).to_string(), _ => "32".into() };
+                let src = match rng.below(6) { 0 => "flip".to_string(), 1 => format!("at:{}", rng.below(tip + 1)), 2 if pn > 0 => format!("at:{}", pn - 1), _ => format!("at:{pn}") };
+                sim.exec(out, &format!("extv {pn} {len} {src} {}", if rng.chance(1, 8) { "x" } else { "-" }));
+            }
+            if rng.chance(1, 2) {
+                // a light client asks for block proofs: last = a main-chain block (sometimes genesis, sometimes a
+                // block of an abandoned fork), blocks = main-chain blocks below/above it, fork blocks, unknown hashes
+                let main_all: Vec<u64> = std::iter::once(0u64).chain(main.iter().copied()).collect();
+                let last = match rng.below(10) {
+                    0 => 0,
+                    1 => *rng.pick(&known),
+                    2 | 3 => *main_all.last().unwrap(),
+                    _ => main_all[rng.below(main_all.len() as u64) as usize],
+                };
+                let k = rng.range(0, 4);
+                let mut ids: Vec<u64> = (0..k)
+                    .map(|_| match rng.below(8) {
+                        0 => 777_700_000 + rng.below(1000),
+                        1 => *rng.pick(&known),
+                        _ => main_all[rng.below(main_all.len() as u64) as usize],
+                    })
+                    .collect();
+                if rng.chance(7, 8) {
+                    ids.sort();
+                    ids.dedup();
+                    ids.retain(|i| *i != last);
+                }
+                sim.exec(out, &format!("bp {last} {}", join(&ids, ",")));
+            }
+            if rng.chance(1, 2) {
+                // GetLastStateProof with peer-chosen fields, sane and adversarial (start beyond last, huge last_n, ...)
+                let main_all: Vec<u64> = std::iter::once(0u64).chain(main.iter().copied()).collect();
+                let last = match rng.below(10) {
+                    0 => 0,
+                    1 => *rng.pick(&known),
+                    2..=4 => *main_all.last().unwrap(),
+                    _ => main_all[rng.below(main_all.len() as u64) as usize],
+                };
+                let ln = last % 10000;
+                let start_num = match rng.below(6) { 0 => 0, 1 => ln + rng.range(1, 3), 2 => ln, _ => rng.below(ln + 1) };
+                let start = match rng.below(4) { 0 => *rng.pick(&known), 1 => 777_700_001, _ => *main_all.get(start_num as usize).unwrap_or(&0) };
+                let last_n = match rng.below(5) { 0 => 0, 1 => 1000, _ => rng.range(1, 6) };
+                // total difficulty grows by a constant per block: pick boundaries / samples around real totals
+                let td = |s: &NSim, n: u64| -> u64 {
+                    let id = if n == 0 { 0 } else { *s.main.get(n as usize - 1).unwrap_or(&0) };
+                    let h = s.blocks[&id].hash();
+                    let ext = s.node().store().get_block_ext(&h).expect("ext");
+                    ext.total_difficulty.0[0]
+                };
+                let sane = rng.chance(3, 5) && main_all.contains(&last) && ln > 0;
+                let (start_num, start, boundary, diffs) = if sane {
+                    // what a light client sends: start <= last on the same chain, samples between start and boundary
+                    let sn = rng.below(ln + 1);
+                    let lo = if sn == 0 { 0 } else { td(&sim, sn - 1) };
+                    let b = td(&sim, rng.range(sn, ln));
+                    let mut d: Vec<u64> = (0..rng.below(5)).map(|_| rng.range(lo + 1, b.max(lo + 2))).filter(|x| *x < b).collect();
+                    d.sort();
+                    d.dedup();
+                    (sn, main_all[sn as usize], b, d)
+                } else {
+                    let boundary = match rng.below(4) { 0 => 0, 1 => td(&sim, ln) + 5, _ => td(&sim, rng.below(ln + 1)) };
+                    let k = rng.below(4);
+                    let mut diffs: Vec<u64> = (0..k).map(|_| td(&sim, rng.below(ln + 1)) + rng.below(2)).collect();
+                    if rng.chance(5, 6) {
+                        diffs.sort();
+                        diffs.dedup();
+                    }
+                    (start_num, start, boundary, diffs)
+                };
+                let params = format!("{last} {start} {start_num} {last_n} {boundary} {}", join(&diffs, ","));
+                let toks: Vec<&str> = params.split(' ').collect();
+                let (kind, numbers, _) = sim.lsp_call(&mut Out::new(&out.dir.join("probe")), &toks, "probe");
+                sim.exec(out, &format!("lsp {params} {kind} {}", join(&numbers, ",")));
             }
         }
     }
